@@ -620,7 +620,11 @@ class Interp:
                 if r is None:
                     unknown = True
             if unknown:
-                raise self.unsupported(f"enum lookup by abstract value {cls.name}({want!r})", node, fr)
+                # lookup by an abstract value: it equals one member's value (path-sensitive), or none (ValueError)
+                for member in cls.attrs:
+                    mv = self.get_attr(EnumV(cls, member), "value", node, fr)
+                    if self.try_equals(mv, want) is None and self.equals(mv, want, f"{self.show(want)} == {self.show(mv)}"):
+                        return EnumV(cls, member)
             self.raise_exc("ValueError", [Str.lit(f"not a valid {cls.name}")], node, fr)
         if cls.is_subclass_of("Exception") or cls.is_subclass_of("BaseException"):
             return ExcV(cls.name, args)
@@ -1264,6 +1268,12 @@ class Interp:
 
     def ex_SetComp(self, e: ast.SetComp, fr: Frame) -> Value:
         v = self.bi.comprehension(e, e.elt, e.generators, fr, "list")
+        if isinstance(v, ListV) and v.absorbed is None:
+            out: List[Value] = []
+            for x in v.items:
+                if not any(self.try_equals(x, y) is True for y in out):
+                    out.append(x)
+            return SetV(out)
         return v
 
     def ex_DictComp(self, e: ast.DictComp, fr: Frame) -> Value:
